@@ -9,7 +9,7 @@ Lemma layout_facts :
   TAGR_NULL = TAGW_NULL /\ TAGR_BOOL = TAGW_BOOL /\ TAGR_INT = TAGW_INT /\ TAGR_FLOAT = TAGW_FLOAT
   /\ TAGR_STRING = TAGW_STRING /\ TAGR_FUNC = TAGW_FUNC /\ TAGR_PTR = TAGW_PTR
   /\ NoDup [TAGW_NULL; TAGW_BOOL; TAGW_INT; TAGW_FLOAT; TAGW_STRING; TAGW_FUNC; TAGW_PTR]
-  /\ lenN MAGIC = 4 /\ VERSION < W16 /\ OP_REWRITE < 256.
+  /\ lenN MAGIC = 4 /\ VERSION < W16 /\ OP_REWRITE < 256 /\ LIM_PTR = W48 - 1.
 Proof.
   repeat split; try reflexivity.
   repeat constructor; cbn; intuition discriminate.
@@ -300,8 +300,9 @@ Proof.
   - change (TAGW_PTR :: le_bytes 8 p) with ([TAGW_PTR] ++ le_bytes 8 p).
     eapply parses_bind; [apply parses_byte|]. tagred.
     eapply parses_bind_end; [apply parses_le; unfold W48 in T; cbn [pow256]; lia|].
-    destruct (N.ltb_spec PAYLOAD_MASK p) as [L|L].
-    + exfalso. unfold W48 in T. change PAYLOAD_MASK with 281474976710655 in L. lia.
+    destruct layout_facts as (_ & _ & _ & _ & _ & _ & _ & _ & _ & _ & _ & HP).
+    destruct (N.ltb_spec LIM_PTR p) as [L|L].
+    + exfalso. unfold W48 in *. lia.
     + apply parses_ret.
 Qed.
 
@@ -326,7 +327,7 @@ Qed.
 
 Lemma rewrite_lt w : N.lor (N.land w 16777215) (OP_REWRITE * 16777216) < W32.
 Proof.
-  destruct layout_facts as (_ & _ & _ & _ & _ & _ & _ & _ & _ & _ & HR).
+  destruct layout_facts as (_ & _ & _ & _ & _ & _ & _ & _ & _ & _ & HR & _).
   assert (N.land w 16777215 < 2 ^ 32) as H1.
   { change 16777215 with (N.ones 24). rewrite N.land_ones.
     pose proof (N.mod_lt w (2 ^ 24) ltac:(lia)). lia. }
